@@ -108,6 +108,9 @@ func (x *Exec) evalCall(st *State, e *ast.CallExpr) []Val {
 		}
 		fts := x.sp.FuncTypes[p+"."+k]
 		if fts == nil {
+			fts = x.sp.FuncTypes[x.fn.pkgPath()+"."+k]
+		}
+		if fts == nil {
 			x.unsupported(e, "call through function value of type "+ft.String()+" without functype contract")
 			return x.freshResults(st, sig)
 		}
@@ -572,6 +575,13 @@ func (x *Exec) findEvent(kind string, ch ast.Expr) (*EventSpec, map[string]ast.E
 // runEvent applies an event hook: obligations of its requires clauses, assumptions of
 // its assume-env clauses, then its ghost effects (simultaneous assignment).
 func (x *Exec) runEvent(st *State, site ast.Node, ev *EventSpec, binds map[string]Val) {
+	if ev.Kind == "send" || ev.Kind == "recv" {
+		// a channel operation may block: real time passes (gClock is the time of the last event)
+		old := (&SEnv{x: x, st: st, pkg: x.fn.pkgPath()}).eval(&SX{Op: "id", Name: "gClock", Pos: ev.Where})
+		c := x.freshConst("g_gClock", "Int")
+		st.assume(app(">=", c, old.T))
+		st.heap["g_gClock"] = Val{T: c, S: "Int"}
+	}
 	env := &SEnv{x: x, st: st, binds: binds, pkg: x.fn.pkgPath(), own: true, pos: site.Pos()}
 	name := fmt.Sprintf("event[%d:%s %s]", x.ordinal(site), ev.Kind, ev.Pattern)
 	n := 0
